@@ -7,9 +7,10 @@ Model of the shutdown protocol of the NATS server (C20):
                           Drain / Conn.Flush / Conn.Barrier
   nats-server             SUB/UNSUB/PUB processing in connection order
 
-A system is: the broker side of the server's subscription (`active`, and `inflight` = requests
-the broker has accepted for the subscription and not yet handed to the client library), the
-nats.go subscription (`pending` FIFO, the callback goroutine `cb`, the `barrier` flag), and the
+A system is: one `Sub` per SUBJECT the server was built with — the broker side of that subscription
+(`inflight` = requests the broker has accepted for it and not yet handed to the client library) and
+the nats.go subscription (`pending` FIFO, its own callback goroutine `cb`: callbacks of different
+subscriptions run concurrently) —, `active` (the broker has the subscriptions), the `barrier` flag, and the
 frugal side: `workC` (a channel of capacity `q`, `closed`), the workers with the processor's write
 mutex `wmu`, the program counters of `Serve` and `Stop`, and the history (`arrived`, `handed`,
 `processed`, `replied`, `dropped`, as lists = multisets).
@@ -38,11 +39,17 @@ work queue) — or not, and the drain may even "succeed" without the broker havi
 subscription (`drainStartIgnored`); messages in flight or pending may never be delivered (no action forces
 `deliver` / `cbStart`), or may still be (a stall that recovers): the model allows both.
 
-Two parameters describe the code:
+The drain waits for EVERY subscription: `flushBarrier` needs every `inflight` empty, `barrierFires`
+every `pending` empty and every callback goroutine idle (`Conn.Barrier` puts a marker behind the
+pending messages of every subscription of the connection and fires when the last one is reached).
+
+Three parameters describe the code:
   * `guarded` — Serve closes `workC` holding `sendMu` exclusively, the handler sends holding it
     shared and turns requests away once `stopped` is set (the code since fix 2a98083). With
     `guarded = false` (the code before) `close(workC)` can happen under a sender: a send on the
     closed channel is a Go panic, recorded in `panicked`.
+  * `lastOnly` — the drain would wait for the LAST subject's subscription only (not the code; a
+    mutation of it: goroutines that all capture the same loop variable).
   * `reentrant` — `trapError` would answer an oversize reply through the LOCKING `SendError`
     while `SendReply` holds the write mutex (not the code; a mutation of it): the worker blocks
     on the mutex it holds.
@@ -91,15 +98,24 @@ inductive StopPc where
   | returned
   deriving DecidableEq, Repr
 
+/-- One subject: the broker's side of the subscription and the nats.go subscription. -/
+structure Sub where
+  inflight : List Msg       -- broker → client library (oldest first)
+  pending : List Msg        -- nats.go pending list, callbacks not started (oldest first)
+  cb : Cb                   -- this subscription's callback goroutine
+  deriving DecidableEq, Repr
+
+/-- Nothing pending and the callback goroutine idle: the barrier marker of this subscription is reached. -/
+def Sub.quiet (sb : Sub) : Bool := sb.pending.isEmpty && sb.cb == .idle
+
 structure Sys where
   q : Nat                   -- capacity of `workC`
   guarded : Bool            -- close of `workC` under `sendMu` (the code as it is)
   reentrant : Bool          -- `trapError` re-locks the write mutex (a mutation; the code: false)
-  active : Bool             -- broker: the subscription exists
+  lastOnly : Bool           -- the drain waits for the last subscription only (a mutation; the code: false)
+  active : Bool             -- broker: the subscriptions exist
   faulty : Bool             -- a connection fault has happened
-  inflight : List Msg       -- broker → client library (oldest first)
-  pending : List Msg        -- nats.go pending list, callbacks not started (oldest first)
-  cb : Cb
+  subs : List Sub           -- one per subject, in the order of the builder's subject list
   barrier : Bool            -- a barrier is registered behind the pending messages
   workC : List Msg          -- oldest first
   closed : Bool
@@ -116,13 +132,14 @@ structure Sys where
   deriving DecidableEq, Repr
 
 inductive Action where
-  | arrive (m : Msg)        -- adversary: the broker accepts request `m` for the subscription
+  | arrive (j : Nat) (m : Msg) -- adversary: the broker accepts request `m` for subscription `j`
   | fault                   -- adversary: connection closed / broker gone / link stalled
-  | deliver                 -- broker → nats.go: oldest in-flight message is appended to `pending`
-  | cbStart                 -- callback goroutine pops the oldest pending message, enters `handler`
-  | handlerEnqueue          -- `f.workC <- frame` completes into the buffer
-  | callbackDone            -- `handler` returns; nats.go decrements the pending count
-  | workerTake (i : Nat)    -- worker `i` receives from `workC` (or directly from the blocked sender)
+  | deliver (j : Nat)       -- broker → nats.go: oldest in-flight message of `j` is appended to its `pending`
+  | cbStart (j : Nat)       -- callback goroutine of `j` pops its oldest pending message, enters `handler`
+  | handlerEnqueue (j : Nat) -- `f.workC <- frame` of `j`'s handler completes into the buffer
+  | callbackDone (j : Nat)  -- `handler` returns; nats.go decrements the pending count
+  | workerTake (i : Nat)    -- worker `i` receives from the buffer of `workC`
+  | workerHandoff (i j : Nat) -- worker `i` receives directly from `j`'s blocked sender (empty buffer)
   | workerHandlerDone (i : Nat) -- the handler method returned; `SendReply` / `SendError` is entered
   | workerLock (i : Nat)    -- `writeMu.Lock()` succeeds
   | workerWriteOk (i : Nat) -- the reply fits: written
@@ -145,60 +162,87 @@ inductive Action where
   | serveReturn             -- `wg.Wait()` returns, `Serve` returns
   deriving DecidableEq, Repr
 
-def initP (guarded reentrant : Bool) (w q : Nat) : Sys :=
-  { q := q, guarded := guarded, reentrant := reentrant, active := true, faulty := false,
-    inflight := [], pending := [], cb := .idle, barrier := false,
+def initP (guarded reentrant lastOnly : Bool) (w q k : Nat) : Sys :=
+  { q := q, guarded := guarded, reentrant := reentrant, lastOnly := lastOnly, active := true, faulty := false,
+    subs := List.replicate k ⟨[], [], .idle⟩, barrier := false,
     workC := [], closed := false, workers := List.replicate w .idle, wmu := none, serve := .running,
     stop := .notCalled, arrived := [], handed := [], processed := [], replied := [], dropped := [],
     panicked := false }
 
-/-- The code as it is. -/
-def init (w q : Nat) : Sys := initP true false w q
+/-- The code as it is: w workers, queue length q, k subjects. -/
+def init (w q k : Nat) : Sys := initP true false false w q k
 
 def allExited (ws : List Wk) : Bool := ws.all (· == .exited)
 
+/-- What the barrier wait waits for. -/
+def drained (s : Sys) : Bool :=
+  if s.lastOnly then (match s.subs.getLast? with | some sb => sb.quiet | none => true)
+  else s.subs.all Sub.quiet
+
 def step (s : Sys) : Action → Option Sys
-  | .arrive m =>
-    if s.active ∧ m ∉ s.arrived then
-      some { s with inflight := s.inflight ++ [m], arrived := s.arrived ++ [m] }
-    else none
+  | .arrive j m =>
+    match s.subs[j]? with
+    | some sb =>
+      if s.active ∧ m ∉ s.arrived then
+        some { s with subs := s.subs.set j { sb with inflight := sb.inflight ++ [m] }, arrived := s.arrived ++ [m] }
+      else none
+    | none => none
   | .fault =>
     if s.faulty then none else some { s with faulty := true }
-  | .deliver =>
-    match s.inflight with
-    | m :: rest => some { s with inflight := rest, pending := s.pending ++ [m] }
-    | [] => none
-  | .cbStart =>
-    match s.cb, s.pending with
-    | .idle, m :: rest =>
-      if s.guarded ∧ s.closed then some { s with pending := rest, dropped := s.dropped ++ [m] }  -- `stopped`: turned away
-      else some { s with cb := .sending m, pending := rest, handed := s.handed ++ [m] }
-    | _, _ => none
-  | .handlerEnqueue =>
-    match s.cb with
-    | .sending m =>
-      if s.closed then some { s with cb := .idle, panicked := true }     -- send on closed channel
-      else if s.workC.length < s.q then some { s with cb := .sent m, workC := s.workC ++ [m] }
-      else none                                                          -- blocked: queue full
-    | _ => none
-  | .callbackDone =>
-    match s.cb with
-    | .sent _ => some { s with cb := .idle }
-    | _ => none
+  | .deliver j =>
+    match s.subs[j]? with
+    | some sb =>
+      match sb.inflight with
+      | m :: rest => some { s with subs := s.subs.set j { sb with inflight := rest, pending := sb.pending ++ [m] } }
+      | [] => none
+    | none => none
+  | .cbStart j =>
+    match s.subs[j]? with
+    | some sb =>
+      match sb.cb, sb.pending with
+      | .idle, m :: rest =>
+        if s.guarded ∧ s.closed then
+          some { s with subs := s.subs.set j { sb with pending := rest }, dropped := s.dropped ++ [m] }  -- `stopped`: turned away
+        else some { s with subs := s.subs.set j { sb with cb := .sending m, pending := rest }, handed := s.handed ++ [m] }
+      | _, _ => none
+    | none => none
+  | .handlerEnqueue j =>
+    match s.subs[j]? with
+    | some sb =>
+      match sb.cb with
+      | .sending m =>
+        if s.closed then some { s with subs := s.subs.set j { sb with cb := .idle }, panicked := true }   -- send on closed channel
+        else if s.workC.length < s.q then
+          some { s with subs := s.subs.set j { sb with cb := .sent m }, workC := s.workC ++ [m] }
+        else none                                                          -- blocked: queue full
+      | _ => none
+    | none => none
+  | .callbackDone j =>
+    match s.subs[j]? with
+    | some sb =>
+      match sb.cb with
+      | .sent _ => some { s with subs := s.subs.set j { sb with cb := .idle } }
+      | _ => none
+    | none => none
   | .workerTake i =>
     match s.workers[i]? with
     | some .idle =>
       match s.workC with
       | m :: rest =>
         some { s with workC := rest, workers := s.workers.set i (.busy m), processed := s.processed ++ [m] }
-      | [] =>
-        match s.cb with
-        | .sending m =>
-          if s.closed then none
-          else -- direct hand-off from the blocked sender (the only way through when q = 0)
-            some { s with cb := .sent m, workers := s.workers.set i (.busy m), processed := s.processed ++ [m] }
-        | _ => none                                                      -- blocked: nothing to receive
+      | [] => none                                                         -- blocked: nothing buffered
     | _ => none
+  | .workerHandoff i j =>
+    match s.workers[i]?, s.subs[j]? with
+    | some .idle, some sb =>
+      match sb.cb with
+      | .sending m =>
+        if s.closed ∨ s.workC ≠ [] then none
+        else -- direct hand-off from the blocked sender (the only way through when q = 0)
+          some { s with subs := s.subs.set j { sb with cb := .sent m }, workers := s.workers.set i (.busy m),
+                        processed := s.processed ++ [m] }
+      | _ => none
+    | _, _ => none
   | .workerHandlerDone i =>
     match s.workers[i]? with
     | some (.busy m) => some { s with workers := s.workers.set i (.locking m) }
@@ -244,9 +288,11 @@ def step (s : Sys) : Action → Option Sys
   | .drainStartIgnored =>
     if s.faulty ∧ s.serve = .gotQuit then some { s with serve := .unsubbed } else none
   | .flushBarrier =>
-    if s.serve = .unsubbed ∧ s.inflight = [] then some { s with serve := .barrierWait, barrier := true } else none
+    if s.serve = .unsubbed ∧ s.subs.all (fun sb => sb.inflight.isEmpty) then
+      some { s with serve := .barrierWait, barrier := true }
+    else none
   | .barrierFires =>
-    if s.serve = .barrierWait ∧ s.barrier ∧ s.pending = [] ∧ s.cb = .idle then
+    if s.serve = .barrierWait ∧ s.barrier ∧ drained s then
       some { s with serve := .barrierDone, barrier := false }
     else none
   | .drainFail =>
@@ -258,7 +304,9 @@ def step (s : Sys) : Action → Option Sys
   | .stopReturn =>
     if s.stop = .gotResult then some { s with stop := .returned } else none
   | .closeWorkC =>
-    if s.serve = .resultSent ∧ (s.guarded → s.cb = .idle) then some { s with serve := .closedQ, closed := true } else none
+    if s.serve = .resultSent ∧ (s.guarded → s.subs.all (fun sb => sb.cb == .idle)) then
+      some { s with serve := .closedQ, closed := true }
+    else none
   | .serveReturn =>
     if s.serve = .closedQ ∧ allExited s.workers then some { s with serve := .returned } else none
 
@@ -272,14 +320,14 @@ def run (s : Sys) : List Action → Option Sys
 /-- Everything but the adversary: the broker accepting a new request, a connection fault, the
 user calling `Stop`. -/
 def Action.isSystem : Action → Bool
-  | .arrive _ => false
+  | .arrive _ _ => false
   | .fault => false
   | .stopCall => false
   | _ => true
 
 /-- The steps of the workers. -/
 def Action.isWorker : Action → Bool
-  | .workerTake _ | .workerHandlerDone _ | .workerLock _ | .workerWriteOk _ | .workerOverflow _
+  | .workerTake _ | .workerHandoff _ _ | .workerHandlerDone _ | .workerLock _ | .workerWriteOk _ | .workerOverflow _
   | .workerErrReply _ | .workerUnlock _ | .workerReply _ | .workerExit _ => true
   | _ => false
 
